@@ -149,6 +149,8 @@ class Run:
             raise Infra("TLC reports a violated property on the model %s %s (fix the model or the design claim):\n%s" % (module, cfg, out[-4000:]))
         if not st["violated"] and not st["completed"]:
             raise Infra("TLC did not complete on %s %s:\n%s" % (module, cfg, out[-3000:]))
+        if mode == "simulate" and env and env.get("VERIF_OUT") and os.path.exists(env["VERIF_OUT"]) and not module.startswith(("MerkleCRDT", "QueryGen")):
+            st["behaviours_kept"] = thin_siblings(env["VERIF_OUT"])
         self.tlc_stats.append({k: v for k, v in st.items() if k not in ("out", "dir")})
         return st
 
@@ -197,6 +199,40 @@ class Run:
               json.dumps({k: v for k, v in coverage.items() if isinstance(v, (int, float, bool))})))
         self.cleanup()
         sys.exit(0)
+
+
+def thin_siblings(path, keep=3):
+    """TLC's simulator evaluates the exporting action constraint for EVERY candidate successor of the last step, so a
+    simulation dump holds, per simulated behaviour, all alternatives of its last step (sometimes hundreds). A driver
+    with a time budget would spend it on the alternatives of the first few simulations. Keep at most `keep` alternatives
+    per simulation (first, middle, last), so that the budget is spread over as many simulations as possible."""
+    lines = [l for l in open(path).read().split("\n") if l.strip()]
+    groups, cur, curkey = [], [], None
+    for l in lines:
+        try:
+            b = json.loads(l)
+            if isinstance(b, str):
+                b = json.loads(b)
+        except Exception:
+            b = None
+        key = json.dumps(b[:-1], sort_keys=True) if isinstance(b, list) and len(b) > 1 else None
+        if key is None or key != curkey:
+            if cur:
+                groups.append(cur)
+            cur, curkey = [], key
+        cur.append(l)
+    if cur:
+        groups.append(cur)
+    out = []
+    for g in groups:
+        if len(g) <= keep:
+            out += g
+        else:
+            idx = sorted({0, len(g) // 2, len(g) - 1})
+            out += [g[i] for i in idx]
+    with open(path, "w") as f:
+        f.write("\n".join(out) + "\n")
+    return len(out)
 
 
 def in_repo(text):
